@@ -7,6 +7,7 @@ import (
 	appsv1 "k8s.io/api/apps/v1"
 	corev1 "k8s.io/api/core/v1"
 	metav1 "k8s.io/apimachinery/pkg/apis/meta/v1"
+	"k8s.io/apimachinery/pkg/util/intstr"
 
 	edsv1 "github.com/DataDog/extendeddaemonset/api/v1alpha1"
 	"verifharness/gen"
@@ -163,3 +164,5 @@ func (p *Prep) addOldDaemonSet() {
 		Spec: appsv1.DaemonSetSpec{Selector: &metav1.LabelSelector{MatchLabels: map[string]string{"app": "old-agent"}}}}
 	p.C.Add(ds)
 }
+
+func intstrOf(i int) intstr.IntOrString { return intstr.FromInt(i) }
